@@ -33,7 +33,11 @@ func racePass(tier string) int {
 	if tier == "thorough" {
 		iters = 300
 	}
-	rng := rand.New(rand.NewSource(1))
+	seed := int64(1)
+	if v := os.Getenv("VERIF_SEED"); v != "" {
+		fmt.Sscan(v, &seed)
+	}
+	rng := rand.New(rand.NewSource(seed))
 	runs := 0
 	var exports atomic.Int64
 	hangs := 0
